@@ -211,6 +211,10 @@ func (s *Solver) readResult() string {
 			}
 			continue
 		}
+		if strings.HasPrefix(line, "(error") && strings.Contains(line, "canceled") {
+			// z3 reports a query cut off by the timeout this way: an unknown
+			continue
+		}
 		if strings.HasPrefix(line, "(error") {
 			s.stats.Errors++
 			if s.stats.FirstError == "" {
